@@ -372,7 +372,7 @@ func (c *Conn) reader(ctx context.Context) (_ MessageType, _ io.Reader, err erro
 	}
 	defer c.readMu.unlock()
 
-	if !c.msgReader.fin {
+	if !c.msgReader.fin || c.msgReader.payloadLength > 0 {
 		return 0, nil, errors.New("previous message not read to completion")
 	}
 
